@@ -60,10 +60,9 @@ Definition written_eq_read (s : cls_spec) : bool :=
   && forallb (fun kv => String.eqb (fst kv) (snd kv)) (written s)
   && forallb (fun r => String.eqb (rkey r) (rslot r)) (reads s).
 
-(** required fields are read unguarded, all other reads are guarded by a presence test *)
+(** every required field is read, and read unguarded (no presence test that could silently skip it) *)
 Definition required_unguarded (s : cls_spec) : bool :=
-  forallb (fun r => if smem (rkey r) (required s) then true else ropt r) (reads s)
-  && subset (required s) (map rkey (reads s)).
+  forallb (fun k => existsb (fun r => String.eqb (rkey r) k && negb (ropt r)) (reads s)) (required s).
 
 (** every slot read reaches the object: as constructor keyword of the same name or by assignment *)
 Definition reads_reach_object (s : cls_spec) : bool :=
@@ -88,9 +87,9 @@ Definition copied_superset (s : cls_spec) : bool := copy_covers (cp_ctor s) (cp_
 
 (** a deep copy deep-copies every attribute except those listed as shared on purpose *)
 Definition deep_is_deep (shared : list string) (s : cls_spec) : bool :=
-  forallb (fun c => if smem (csrc c) shared then true else cpmode_eqb (cmode c) CDeep) (dp_ctor s ++ dp_post s).
+  forallb (fun c => if String.eqb (csrc c) "" || smem (csrc c) shared then true else cpmode_eqb (cmode c) CDeep) (dp_ctor s ++ dp_post s).
 (** a shallow copy never passes a mutable attribute on as is *)
 Definition shallow_copies (shared : list string) (s : cls_spec) : bool :=
-  forallb (fun c => if smem (csrc c) shared then true else negb (cpmode_eqb (cmode c) CPlain)) (cp_ctor s ++ cp_post s).
+  forallb (fun c => if String.eqb (csrc c) "" || smem (csrc c) shared then true else negb (cpmode_eqb (cmode c) CPlain)) (cp_ctor s ++ cp_post s).
 
 Definition find_spec (n : string) (l : list cls_spec) : option cls_spec := find (fun s => String.eqb (cname s) n) l.
